@@ -53,7 +53,7 @@ THEOREMS = ["P_RemoveExact: removal leaves SameH and shrinks knot vector / net b
 
 
 def run(ctx):
-    res = core.run_tlc("MC_C06", "MC_C06_%s.cfg" % ctx.tier, timeout=3400)
+    res = core.run_model(ctx, "MC_C06", 3400, thorough_seeds=(2, 3))
     core.tlc_must_pass(res, "MC_C06")
     ctx.add_tlc(res, "exhaustive over (insert | refine) ; remove histories on curves, surfaces and volumes")
     ctx.theorems = THEOREMS
